@@ -345,6 +345,9 @@ package channels
 //@ func (*channels.progressCache).getValue {C08,C20}
 //@   requires readProgress != nil
 //@   modifies pc.values
+//@   guarantee [insert-seeded] forall k datatransfer.ChannelID :: has(self.values, k) && !old(has(self.values, k)) ==>
+//@       k == chid && calls(dyn.readProgressFn) == 1 && self.values[k].dataLimit == ret(dyn.readProgressFn, 0) && *self.values[k].progress == ret(dyn.readProgressFn, 1)
+//@   guarantee [others-unchanged] forall k datatransfer.ChannelID :: old(has(self.values, k)) ==> self.values[k] == old(self.values[k])
 //@   ensures [hit] old(has(pc.values, chid)) ==> err == nil && result0.progress == old(pc.values[chid]).progress && untouched
 //@   ensures [seeded] calls(dyn.readProgressFn) == 1 && ret(dyn.readProgressFn, 2) == nil ==>
 //@       err == nil && result0.dataLimit == ret(dyn.readProgressFn, 0) && result0.progress != nil && *result0.progress == ret(dyn.readProgressFn, 1) &&
@@ -365,6 +368,8 @@ package channels
 
 //@ func (*channels.progressCache).setDataLimit {C08,C20}
 //@   modifies pc.values
+//@   guarantee [no-insert] forall k datatransfer.ChannelID :: has(self.values, k) ==> old(has(self.values, k)) -- entries are only created by getValue, seeded from the durable (limit, progress)
+//@   guarantee [only-this-limit] forall k datatransfer.ChannelID :: old(has(self.values, k)) && k != chid ==> self.values[k] == old(self.values[k])
 //@   ensures [present] old(has(pc.values, chid)) ==> has(pc.values, chid) && pc.values[chid].dataLimit == newLimit &&
 //@       pc.values[chid].progress == old(pc.values[chid].progress)
 //@   ensures [untouched] untouched
